@@ -97,10 +97,106 @@ struct NonTrivial {
 
 static long long g_sink = 0;
 
+// element type whose copy constructor throws on demand and which keeps a registry of the addresses that hold a live object:
+// a destructor (or an assignment) on an address that holds no live object aborts
+struct Thrower {
+    static inline void const* live[256] = {};
+    static inline int n_live            = 0;
+    static inline int countdown         = -1;   // the (countdown+1)-th copy construction from now on throws; -1: never
+    static void reg(void const* p) { live[n_live++] = p; }
+    static void unreg(void const* p)
+    {
+        for (int i = 0; i < n_live; ++i) {
+            if (live[i] == p) { live[i] = live[--n_live]; return; }
+        }
+        std::abort();   // destroying / assigning storage that holds no live object
+    }
+    static bool is_live(void const* p)
+    {
+        for (int i = 0; i < n_live; ++i) { if (live[i] == p) { return true; } }
+        return false;
+    }
+    int v{0};
+    Thrower() { reg(this); }
+    Thrower(int x) : v{x} { reg(this); }   // NOLINT
+    Thrower(Thrower const& o) : v{o.v}
+    {
+        if (countdown >= 0 && countdown-- == 0) { throw 42; }
+        reg(this);
+    }
+    auto operator=(Thrower const& o) -> Thrower&
+    {
+        if (!is_live(this) || !is_live(&o)) { std::abort(); }
+        v = o.v;
+        return *this;
+    }
+    ~Thrower() { unreg(this); }
+};
+
+// copy construction / copy assignment whose element copy throws part-way: afterwards the target must hold exactly size() live
+// objects (so that its destructor, clear() or the next assignment never touches dead storage), the source is unchanged
+template <typename Vec>
+static void throwing_scenario(Out& impl, bool assign, int target_elems, int source_elems, int countdown)
+{
+    Thrower::n_live    = 0;
+    Thrower::countdown = -1;
+    bool threw = false;
+    {
+        Vec src{};   // value-initialised: a default-initialised inplace_vector has an indeterminate size (known finding)
+        for (int i = 0; i < source_elems; ++i) { if constexpr (requires { src.try_emplace_back(1); }) { (void)src.try_emplace_back(i + 1); } else { (void)src.emplace_back(i + 1); } }
+        if (assign) {
+            Vec dst{};
+            for (int i = 0; i < target_elems; ++i) { if constexpr (requires { dst.try_emplace_back(1); }) { (void)dst.try_emplace_back(100 + i); } else { (void)dst.emplace_back(100 + i); } }
+            Thrower::countdown = countdown;
+            try { dst = src; } catch (int) { threw = true; }
+            Thrower::countdown = -1;
+            int live_in_dst = 0;
+            for (auto const& x : dst) { live_in_dst += Thrower::is_live(&x) ? 1 : 0; }
+            impl.tok("ok").b(threw).b(live_in_dst == static_cast<int>(dst.size())).b(Thrower::n_live == static_cast<int>(dst.size() + src.size()));
+            dst.clear();
+            dst = src;   // the object is still usable
+        } else {
+            Thrower::countdown = countdown;
+            try {
+                Vec dst{src};
+                Thrower::countdown = -1;
+                impl.tok("ok").b(false).b(true).b(Thrower::n_live == static_cast<int>(dst.size() + src.size()));
+            } catch (int) {
+                threw = true;
+                Thrower::countdown = -1;
+                impl.tok("ok").b(true).b(true).b(Thrower::n_live == static_cast<int>(src.size()));
+            }
+        }
+    }
+    impl.b(Thrower::n_live == 0);   // everything constructed was destroyed exactly once
+}
+
 static constexpr int free_twice(int x) { return 2 * x; }
 struct Acc {
     int base{0};
     constexpr auto add(int x) const -> int { return base + x; }
+};
+
+// range-guarded iterators: stepping past the end of the range (or before its beginning), or dereferencing at the end, calls
+// a non-constexpr function: at run time that aborts (the case is reported as `crash 6`), inside a constant expression it makes
+// the evaluation ill-formed (variant ce)
+[[noreturn]] inline void iterator_left_its_range() { std::abort(); }
+template <bool Bidi>
+struct GuardIt {
+    using value_type        = int;
+    using difference_type   = etl::ptrdiff_t;
+    using reference         = int&;
+    using pointer           = int*;
+    using iterator_category = etl::conditional_t<Bidi, etl::bidirectional_iterator_tag, etl::forward_iterator_tag>;
+    int* p{nullptr};
+    int* lo{nullptr};
+    int* hi{nullptr};
+    constexpr auto operator*() const -> int& { if (p == hi || p == nullptr) { iterator_left_its_range(); } return *p; }
+    constexpr auto operator++() -> GuardIt& { if (p == hi) { iterator_left_its_range(); } ++p; return *this; }
+    constexpr auto operator++(int) -> GuardIt { auto t = *this; ++(*this); return t; }
+    constexpr auto operator--() -> GuardIt& requires(Bidi) { if (p == lo) { iterator_left_its_range(); } --p; return *this; }
+    constexpr auto operator--(int) -> GuardIt requires(Bidi) { auto t = *this; --(*this); return t; }
+    friend constexpr auto operator==(GuardIt const& a, GuardIt const& b) -> bool { return a.p == b.p; }
 };
 
 // ---- batteries that are also constant expressions: every one is run (i) at run time under the allocation counter
@@ -186,6 +282,40 @@ constexpr auto algo(int seed) -> long long
     auto* q  = etl::remove_if(a, a + 8, [](int x) { return x % 2 == 0; });
     auto* u  = etl::unique(a, q);
     auto* pp = etl::partition(a, u, [](int x) { return x > 4; });
+    // EMPTY ranges through forward-only and bidirectional iterators, with positive n: nothing may be stepped or read
+    {
+        int g[4] = {1, 2, 3, 4};
+        using F = GuardIt<false>;
+        using B = GuardIt<true>;
+        auto fe = F{g + 4, g, g + 4};     // the empty range at the very end of the array
+        auto be = B{g + 4, g, g + 4};
+        auto f0 = F{g, g, g};             // the empty range at its beginning
+        auto b0 = B{g, g, g};
+        (void)etl::shift_left(fe, fe, 2);
+        (void)etl::shift_left(be, be, 1);
+        (void)etl::shift_left(f0, f0, 3);
+        (void)etl::shift_right(be, be, 2);
+        (void)etl::shift_right(b0, b0, 1);
+        (void)etl::rotate(fe, fe, fe);
+        (void)etl::rotate(be, be, be);
+        etl::reverse(be, be);
+        etl::reverse(b0, b0);
+        (void)etl::remove_if(fe, fe, [](int x) { return x > 0; });
+        (void)etl::unique(fe, fe);
+        (void)etl::partition(fe, fe, [](int x) { return x > 0; });
+        etl::fill(fe, fe, 0);
+        (void)etl::swap_ranges(fe, fe, f0);
+        // and non-empty ranges that end with the array
+        auto f2 = F{g + 2, g, g + 4};
+        (void)etl::shift_left(f2, fe, 1);
+        (void)etl::shift_left(f2, fe, 2);
+        (void)etl::shift_left(f2, fe, 5);
+        auto b2 = B{g + 1, g, g + 4};
+        (void)etl::shift_right(b2, be, 1);
+        (void)etl::shift_right(b2, be, 7);
+        (void)etl::rotate(f2, F{g + 3, g, g + 4}, fe);
+        etl::reverse(b2, be);
+    }
     int e[1] = {0};
     etl::sort(e, e);                  // empty ranges
     etl::exchange_sort(e, e);
@@ -704,6 +834,21 @@ bool vh::run_case(std::string const& op, Toks& in, Out& impl, Out& ref)
         for (; i < n; ++i) { char c = heap[off + i]; if (!((c >= '0' && c <= '9') || c == '.')) { good = false; } }
         if (good) { ref.tok("ok").num(0).num(static_cast<i64>(n)); } else { ref.tok("ok").num(1).num(0); }
         std::free(heap);
+        return true;
+    }
+    if (op == "throwing") {
+        // throwing <sv|iv> <assign 0|1> <target elems> <source elems> <countdown>
+        auto kind   = in.str();
+        auto assign = in.num() != 0;
+        auto te     = static_cast<int>(in.num());
+        auto se     = static_cast<int>(in.num());
+        auto cd     = static_cast<int>(in.num());
+        if (te > 4 || se > 4) { return false; }
+        if (kind == "sv") { throwing_scenario<etl::static_vector<Thrower, 4>>(impl, assign, te, se, cd); }
+        else if (kind == "iv") { throwing_scenario<etl::inplace_vector<Thrower, 4>>(impl, assign, te, se, cd); }
+        else { return false; }
+        // reference: the copy throws iff the countdown is reached; the target then holds size() live objects, nothing leaks
+        ref.tok("ok").b(cd >= 0 && cd < se).b(true).b(true).b(true);
         return true;
     }
     if (op == "strtod") {
